@@ -112,8 +112,16 @@ func build(race bool) string {
 	if ov != "" {
 		defer os.Remove(ov)
 	}
+	modfile := altModFile()
+	if modfile != "" {
+		defer os.Remove(modfile)
+		defer os.Remove(strings.TrimSuffix(modfile, ".mod") + ".sum")
+	}
 	run := func(withOverlay bool) ([]byte, error) {
 		a := append([]string{}, args...)
+		if modfile != "" {
+			a = append(a, "-modfile", modfile)
+		}
 		env := goEnv()
 		if withOverlay {
 			a = append(a, "-overlay", ov)
@@ -145,6 +153,30 @@ func build(race bool) string {
 		fatal2("rename: %v", err)
 	}
 	return final
+}
+
+// altModFile: when VERIF_REPO names another working tree of the library than
+// /repo (scratch worktrees used to try seeded changes, background runs), the
+// check is built against it through a copy of go.mod with the replace
+// directive redirected.
+func altModFile() string {
+	repo := os.Getenv("VERIF_REPO")
+	if repo == "" || repo == "/repo" {
+		return ""
+	}
+	b, err := os.ReadFile(filepath.Join(verifDir, "go.mod"))
+	if err != nil {
+		return ""
+	}
+	nb := strings.Replace(string(b), "=> /repo", "=> "+repo, 1)
+	p := filepath.Join(binDir, fmt.Sprintf("alt.%d.mod", os.Getpid()))
+	if os.WriteFile(p, []byte(nb), 0o644) != nil {
+		return ""
+	}
+	if sum, err := os.ReadFile(filepath.Join(verifDir, "go.sum")); err == nil {
+		_ = os.WriteFile(strings.TrimSuffix(p, ".mod")+".sum", sum, 0o644)
+	}
+	return p
 }
 
 // overlayFile writes the -overlay description that replaces the schema
@@ -743,9 +775,13 @@ func run(bin, prop, tier string, seed int64, replay string, nshards int, race bo
 		"wall_s":      time.Since(start).Seconds(),
 		"violations":  len(uniq),
 	}
-	_ = os.MkdirAll(filepath.Join(verifDir, "evidence"), 0o755)
+	evDir := filepath.Join(verifDir, "evidence")
+	if d := os.Getenv("VERIF_EVIDENCE_DIR"); d != "" {
+		evDir = d // trial runs against scratch trees keep their evidence out of /verif/evidence
+	}
+	_ = os.MkdirAll(evDir, 0o755)
 	eb, _ := json.MarshalIndent(ev, "", " ")
-	_ = os.WriteFile(filepath.Join(verifDir, "evidence", prop+".json"), append(eb, '\n'), 0o644)
+	_ = os.WriteFile(filepath.Join(evDir, prop+".json"), append(eb, '\n'), 0o644)
 
 	for _, l := range knownLines {
 		fmt.Println(l)
